@@ -22,7 +22,7 @@ PROPERTY = "C19"
 LEVEL = "model_checking"
 OPTIONS = {"quick": {"max_paths": 20000, "unit_budget_s": 600}, "thorough": {"max_paths": 200000, "unit_budget_s": 1800}}
 BOUNDS = {
-    "quick": {"interleaving": "two sessions x schedules of 2 calls each from a reduced operation set (requests, responses, deliveries, unbind, registrations), all 6 interleavings, ids / result codes / payload symbolic", "registration": "all 8 subsets of the three custom types, symbolic payload octets; every history of 3 registrations / deliveries of two custom types of one kind on one session (decode before and after registering, rejected duplicate followed by a valid registration)"},
+    "quick": {"interleaving": "two sessions x schedules of 2 calls each from a reduced operation set (requests, responses, deliveries, unbind, registrations), all 6 interleavings, ids / result codes / payload symbolic; 10 schedules of 2-3 calls in which the two sessions register different custom controls and each decodes the other's type", "registration": "all 8 subsets of the three custom types, symbolic payload octets; every history of 3 registrations / deliveries of two custom types of one kind on one session (decode before and after registering, rejected duplicate followed by a valid registration)"},
     "thorough": {"interleaving": "schedules of 2: for the client/server pair the client runs over the full operation set; reduced sets otherwise", "registration": "same, histories of 3 and 4"},
 }
 OUTSIDE = ["schedules longer than 3 calls per session", "more than two sessions"]
@@ -50,6 +50,18 @@ def units(tier):
     # change what the other gets for a different code (process-wide tables keyed by such values)
     for i, (x, y) in enumerate([(-1, 2**32 - 1), (2**32 - 1, -1), (666, 2**32 + 666), (2**31, -(2**31)), (-1, -1), (2**64 + 5, 5)]):
         us.append({"name": f"il_codes_{i}", "shape": {"kind": "il", "sa": "client", "sb": "client", "a": ["extended", f"recv_xr#{x}"], "b": ["extended", f"recv_xr#{y}"]}})
+    # two sessions holding DIFFERENT registrations (of the same count): what one of them decodes
+    # for the other's control type must not influence what the other gets (schedules of 2 and 3)
+    diff = [
+        (["reg_control2", "recv_custom"], ["reg_control", "recv_custom"]),
+        (["reg_control2", "recv_custom2"], ["reg_control", "recv_custom2"]),
+        (["reg_control", "recv_custom2"], ["reg_control2", "recv_custom"]),
+        (["reg_control2", "recv_custom", "recv_custom2"], ["reg_control", "recv_custom"]),
+        (["recv_custom", "reg_control2"], ["reg_control", "recv_custom"]),
+    ]
+    for i, (a, b) in enumerate(diff):
+        for sa, sb in (("server", "server"), ("client", "server")):
+            us.append({"name": f"il_diffreg_{sa[0]}{sb[0]}_{i}", "shape": {"kind": "il", "sa": sa, "sb": sb, "a": a, "b": b}})
     for mask in range(8):
         us.append({"name": f"reg_{mask}", "shape": {"kind": "reg", "mask": mask}})
     # histories of registrations and deliveries on ONE session: decode before and after
@@ -160,6 +172,15 @@ def do(ctx, sess_, side, op, tag, types):
             ret = sess_.register_control(MyControl)
         elif op == "reg_filter":
             ret = sess_.register_filter(MyFilter)
+        elif op == "reg_control2":
+            # a different custom control (an OID of its own): the two sessions then hold different
+            # registrations of the same count
+            ret = sess_.register_control(_second_types(ctx.L)[0])
+        elif op == "recv_custom2":
+            p = ctx.bytes(f"{tag}.pl", 1)
+            mid = ctx.int(f"{tag}.mid", 0, sess.IDMAX)
+            data = M.ExtendedRequest(mid, [_second_types(ctx.L)[0](critical=False, payload=p)], "1.2", None).pack(sess.po(ctx))
+            ret = sess_.receive(data)
         elif op == "send_custom":
             p = ctx.bytes(f"{tag}.pl", 1)
             ret = sess_.extended_request("1.2", None, controls=[MyControl(critical=True, payload=p)])
